@@ -54,6 +54,7 @@ type CaseCtx struct {
 	res     *CaseResult
 	hist    []string
 	fp      hashWriter
+	known   map[string]*knownFinding
 }
 
 type hashWriter struct{ h uint64 }
@@ -106,10 +107,32 @@ func (c *CaseCtx) Note(format string, a ...interface{}) {
 
 func (c *CaseCtx) Violate(sig, class, detail string) {
 	c.res.Verdict = "violated"
-	if len(c.res.Viol) < 8 {
-		c.res.Viol = append(c.res.Viol, Violation{Sig: c.Prop + "/" + class + "/" + sig, Class: class, Detail: detail})
+	full := c.Prop + "/" + class + "/" + sig
+	// at most 4 witnesses per signature and 24 distinct signatures per case: many witnesses of one (possibly known)
+	// signature must never crowd out a different one
+	same, distinct := 0, map[string]bool{}
+	for _, v := range c.res.Viol {
+		distinct[v.Sig] = true
+		if v.Sig == full {
+			same++
+		}
+	}
+	if same < 4 && (distinct[full] || len(distinct) < 24) {
+		c.res.Viol = append(c.res.Viol, Violation{Sig: full, Class: class, Detail: detail})
 	}
 	c.Note("VIOLATION %s/%s: %s", class, sig, detail)
+}
+
+// Unexplained counts the violations collected so far that no known finding absorbs. Loops that stop early once
+// "enough" has been found use this count, so that witnesses of a known finding never cut an exploration short.
+func (c *CaseCtx) Unexplained() int {
+	n := 0
+	for _, v := range c.res.Viol {
+		if matchKnownIn(c.known, v) == nil {
+			n++
+		}
+	}
+	return n
 }
 
 func (c *CaseCtx) Inconclusive(why string) {
@@ -175,7 +198,8 @@ func runOneCase(ck *Check, tier string, seed int64, i, n int, scratchRoot string
 	os.MkdirAll(dir, 0755)
 	defer os.RemoveAll(dir)
 	c := &CaseCtx{Prop: ck.ID, Tier: tier, Seed: seed, Case: i, NCases: n,
-		Rng: rand.New(rand.NewSource(caseSeed(ck.ID, seed, i))), Scratch: dir, res: &res}
+		Rng: rand.New(rand.NewSource(caseSeed(ck.ID, seed, i))), Scratch: dir, res: &res,
+		known: loadKnownFindings(filepath.Join(verifRoot(), "KNOWN_FINDINGS.txt"), ck.ID)}
 	atomic.StoreInt32(&faultInjectedInCase, 0)
 	func() {
 		defer func() {
@@ -775,8 +799,10 @@ func loadKnownFindings(path, prop string) map[string]*knownFinding {
 	return out
 }
 
-func (d *driverState) matchKnown(v Violation) *knownFinding {
-	for _, kf := range d.known {
+func (d *driverState) matchKnown(v Violation) *knownFinding { return matchKnownIn(d.known, v) }
+
+func matchKnownIn(known map[string]*knownFinding, v Violation) *knownFinding {
+	for _, kf := range known {
 		if strings.HasSuffix(kf.Sig, "*") {
 			if strings.HasPrefix(v.Sig, kf.Sig[:len(kf.Sig)-1]) {
 				return kf
